@@ -383,6 +383,9 @@ func genC09Dynamic(t *rapid.T) *vnet.Scenario {
 	sc.FaultsC2S = genScript(t, "f_c2s", 200, delays)
 	sc.FaultsS2C = genScript(t, "f_s2c", 200, delays)
 	sc.DeadlineMs = 300000
+	// a receiving application that pauses: the peer's window stays full for
+	// several resend rounds
+	drawSlowReaders(t, sc, 2*minResend)
 	return sc
 }
 
